@@ -285,7 +285,9 @@ namespace Mb
 inductive Ev
   | openAppend (ok : Bool)
   | alarm (n : Nat)
-  | flock (ok : Bool) (len : Nat)           -- `len`: length of the file at `seek_end` right after
+  | flock (ok : Bool)
+  | seekEnd (len : Nat)                      -- `seek_end(fd)`: the offset lseek returned (= length of the file now)
+  | seekCur (len : Nat)                      -- `pos = seek_cur(fd)`: the offset lseek returned
   | read (n : Nat)
   | readErr (intr : Bool)
   | write (bs : Bytes)
@@ -298,16 +300,19 @@ inductive Ev
   deriving DecidableEq, Repr
 
 inductive PC
-  | start | alarmOn | lock | alarmOff | copy | closeOk | finish | rollback | closeErr
+  | start | alarmOn | lock | alarmOff | seekE | seekC | copy | closeOk | finish | rollback | closeErr
   | dying (code : Nat) | done (code : Nat)
   deriving DecidableEq, Repr
 
 structure St where
   pc : PC := .start
   locked : Bool := false
+  off : Nat := 0                 -- offset of the descriptor after `seek_end`
   pos : Nat := 0
   written : Bytes := []
   eof : Bool := false
+  opened : Bool := false         -- ghost: `mailfile()` has been entered (open_append was attempted)
+  synced : Bool := false         -- ghost: a successful fsync of the complete entry has happened
   deriving DecidableEq, Repr
 
 /-- `goto writeerrs` / the read-error branch: `if (flaglocked) seek_trunc(fd,pos); close(fd); _exit(111)` -/
@@ -315,19 +320,21 @@ def failFrom (s : St) : St := if s.locked then { s with pc := .rollback } else {
 
 /-- `entry` is what has to be appended: `mboxEntry ufline rpline dtline msg` -/
 def accept (entry : Bytes) (s : St) : Ev → Option St
-  | .openAppend ok => if s.pc = .start then some { s with pc := if ok then .alarmOn else .dying 111 } else none
+  | .openAppend ok => if s.pc = .start then some { s with pc := if ok then .alarmOn else .dying 111, opened := true } else none
   | .alarm n =>
     if s.pc = .alarmOn ∧ n = 30 then some { s with pc := .lock }
-    else if s.pc = .alarmOff ∧ n = 0 then some { s with pc := .copy }
+    else if s.pc = .alarmOff ∧ n = 0 then some { s with pc := .seekE }
     else none
-  | .flock ok len => if s.pc = .lock then some { s with pc := .alarmOff, locked := ok, pos := len } else none
+  | .flock ok => if s.pc = .lock then some { s with pc := .alarmOff, locked := ok } else none
+  | .seekEnd len => if s.pc = .seekE then some { s with pc := .seekC, off := len } else none
+  | .seekCur len => if s.pc = .seekC ∧ len = s.off then some { s with pc := .copy, pos := len } else none
   | .read n => if s.pc = .copy ∧ s.eof = false then some { s with eof := n == 0 } else none
   | .readErr intr => if s.pc = .copy ∧ s.eof = false then some (if intr then s else failFrom s) else none
   | .write bs =>
     if s.pc = .copy ∧ bs ≠ [] ∧ isPrefix (s.written ++ bs) entry = true then some { s with written := s.written ++ bs } else none
   | .writeErr intr => if s.pc = .copy then some (if intr then s else failFrom s) else none
   | .fsync ok =>
-    if s.pc = .copy ∧ s.eof = true ∧ s.written = entry then some (if ok then { s with pc := .closeOk } else failFrom s) else none
+    if s.pc = .copy ∧ s.eof = true ∧ s.written = entry then some (if ok then { s with pc := .closeOk, synced := true } else failFrom s) else none
   | .ftrunc len _ => if s.pc = .rollback ∧ len = s.pos then some { s with pc := .closeErr } else none
   | .close =>
     if s.pc = .closeOk then some { s with pc := .finish }
@@ -353,16 +360,16 @@ def upd (f : Nat → St) (i : Nat) (s : St) : Nat → St := fun j => if j = i th
 def release (h : Option Nat) (i : Nat) : Option Nat := if h = some i then none else h
 
 /-- process `i` performs event `e`: the program side (`accept`) and the operating-system side
-(append-mode writes go to the end of the file, `ftruncate`, `flock` granted only when free, the
-length seen by `seek_end`; the lock is dropped by `close` and by process exit) -/
+(append-mode writes go to the end of the file, `ftruncate`, `flock` granted only when free,
+`seek_end` returns the current length of the file; the lock is dropped by `close` and by process exit) -/
 def sysStep (entry : Nat → Bytes) (y : Sys) (i : Nat) (e : Ev) : Option Sys :=
   match accept (entry i) (y.st i) e with
   | none => none
   | some s' =>
     let y' := { y with st := upd y.st i s' }
     match e with
-    | .flock true len => if y.holder = none ∧ len = y.file.length then some { y' with holder := some i } else none
-    | .flock false len => if len = y.file.length then some y' else none
+    | .flock true => if y.holder = none then some { y' with holder := some i } else none
+    | .seekEnd len => if len = y.file.length then some y' else none
     | .write bs => some { y' with file := y.file ++ bs }
     | .ftrunc len true => some { y' with file := y.file.take len }
     | .fsync true => some { y' with order := y.order ++ [i] }
@@ -379,7 +386,7 @@ def sysRun (entry : Nat → Bytes) : Sys → List (Nat × Ev) → Option Sys
 /-- events outside the hypotheses of the serialisation theorem: a failing `flock` (the program then
 proceeds *unlocked*, `flaglocked = 0`) and a failing `ftruncate` (its result is ignored) -/
 def benign : Ev → Bool
-  | .flock false _ => false
+  | .flock false => false
   | .ftrunc _ false => false
   | _ => true
 
